@@ -20,10 +20,11 @@ theorem split_words_res_pinned :
     Tables.pyTypesSplitWordsCapRe = "^[a-z0-9]+|[A-Z][a-z0-9]+|[A-Z]+(?=[A-Z][a-z0-9])|[A-Z]+$"
     ∧ Tables.pyTypesSplitWordsDashRe = "[-_/]+" := by decide
 
-/-- the alias definition and the enumerated-subtypes mapping spell their target with the raw name (every
-reference goes through `fmt_class`): the two places where the model does not apply `fmtClass`. -/
+/-- the alias validator is named through `fmt_class`; the enumerated-subtypes mapping (and the class alias, see
+`aliasStmts`) spell their target with the raw name although every reference goes through `fmt_class`: the places
+where the model does not apply `fmtClass`. -/
 theorem raw_name_sites_pinned :
-    Tables.pyTypesRawNameSites = ["alias_validator:'{}_validator'.format(alias.name)",
+    Tables.pyTypesRawNameSites = ["alias_validator:'{}_validator'.format(fmt_class(alias.name))",
       "subtype_map:'{}._tag_to_subtype_ = '.format(data_type.name)",
       "subtype_map:'{}._pytype_to_tag_and_subtype_ = '.format(data_type.name)"] := by decide
 
@@ -72,9 +73,9 @@ theorem exposes_all_inherited (api : Api) (ns : Namespace) (hns : ns ∈ api.nam
 theorem chain_members_are_all_fields (api : Api) (n : Nat) (d : DataType) :
     (chainMembersK api n d).map (·.2) = chainFields api n d := chainMembersK_fields api n d
 
-/-- Every alias has `<name>_validator`. -/
+/-- Every alias has `<Name>_validator`. -/
 theorem exposes_all_aliases (api : Api) (ns : Namespace) (a : Alias) (ha : a ∈ ns.aliases) :
-    ∃ copy uses, Stmt.assign (a.name ++ "_validator") none copy uses ∈ pyTypesStmts api ns :=
+    ∃ copy uses, Stmt.assign (fmtClass a.name ++ "_validator") none copy uses ∈ pyTypesStmts api ns :=
   alias_validator api ns a ha
 
 /-- Every route version is a route object bound to `fmt_func(name, version)` whose expression evaluates the
@@ -211,8 +212,10 @@ example : apiWF sampleApi = true ∧ acyclicB sampleApi = true
 
 /-! ## Witnesses: why `import_safe` needs its hypotheses -/
 
-/-- three namespaces importing each other in a circle (accepted by the compiler, which only detects
-two-namespace cycles) -/
+/-- three namespaces importing each other in a circle (the compiler used to accept this - it only detected
+two-namespace cycles; since the repair "an import cycle through three or more namespaces is a spec error" it refuses
+it, so the real toolchain now supplies the acyclicity hypothesis; the witness stays as the model-level reason why
+`import_safe` needs it) -/
 def cycleApi : Api := { namespaces := [
   { name := "na", imports := ["nb"], types := [{ isStruct := true, name := "A", fields := [{ name := "f", ty := .user "nb" "B" }] }] },
   { name := "nb", imports := ["nc"], types := [{ isStruct := true, name := "B", fields := [{ name := "f", ty := .user "nc" "C" }] }] },
@@ -232,8 +235,10 @@ theorem import_cycle_witness :
   simp only at h1 h2 h3
   omega
 
-/-- `alias A = List(Z)` with `Z` a later alias: `linearize_aliases` follows only direct alias → alias edges and
-leaves `A` first -/
+/-- `alias A = List(Z)` with `Z` a later alias: `linearize_aliases` used to follow only direct alias → alias edges
+and left `A` first (repaired: "linearize_aliases places aliases mentioned inside List, Map and Nullable first"; the
+hand seeds `alias-order-*` are kept as regression inputs). The witness shows why `apiWF` asks for the order AT ANY
+DEPTH. -/
 def aliasOrderApi : Api := { namespaces := [
   { name := "n", aliases := [{ name := "A", ty := .list (.alias "n" "Z") }, { name := "Z", ty := .prim }] }] }
 
@@ -250,17 +255,28 @@ theorem alias_order_witness :
     ∧ errOf (importFrom (pyModules aliasOrderFixedApi) "n") = none := by
   refine ⟨by decide, by decide, by decide, by decide⟩
 
-/-- `alias AS = String` used by a field: defined as `AS_validator`, referenced as `As_validator` -/
+/-- `alias AS = String` used by a field (regression: it used to be defined as `AS_validator` and referenced as
+`As_validator`; the validator is now defined under the name its users refer to) -/
 def aliasNameApi : Api := { namespaces := [
   { name := "n", aliases := [{ name := "AS", ty := .prim }],
     types := [{ isStruct := true, name := "S", fields := [{ name := "f", ty := .alias "n" "AS" }] }] }] }
 
+/-- `alias HTTPUnion = U` with a tag default through the alias: the class alias is still bound as `HTTPUnion` and
+referred to as `HttpUnion` -/
+def classAliasNameApi : Api := { namespaces := [
+  { name := "n", aliases := [{ name := "HTTPUnion", ty := .user "n" "U" }],
+    types := [{ isStruct := false, name := "U", fields := [{ name := "x", ty := .void }] },
+              { isStruct := true, name := "S",
+                fields := [{ name := "f", ty := .alias "n" "HTTPUnion", dflt := some (.tag (.alias "n" "HTTPUnion") "x") }] }] }] }
+
 set_option maxRecDepth 100000 in
-/-- The hypothesis that alias names are fixed points of `fmt_class` is needed. -/
+/-- An alias of a primitive may have any name; the hypothesis that the name of an alias ENDING IN A CLASS is a fixed
+point of `fmt_class` is needed. -/
 theorem alias_name_witness :
-    apiWF aliasNameApi = false
-    ∧ errOf (importFrom (pyModules aliasNameApi) "n") = some (.nameError "n" ⟨none, "As_validator", none⟩) := by
-  refine ⟨by decide, by decide⟩
+    apiWF aliasNameApi = true ∧ errOf (importFrom (pyModules aliasNameApi) "n") = none
+    ∧ apiWF classAliasNameApi = false
+    ∧ errOf (importFrom (pyModules classAliasNameApi) "n") = some (.nameError "n" ⟨none, "HttpUnion", some "x"⟩) := by
+  refine ⟨by decide, by decide, by decide, by decide⟩
 
 /-- a route attribute holding a union tag: `TagRef(...)` is printed into the module -/
 def tagRefAttrApi : Api := { namespaces := [
